@@ -6,7 +6,7 @@ import "github.com/thought-machine/please/src/core"
 
 func init() { vpRegister("vpH_C25_gc", vpH_C25_gc) }
 
-var vpGCNames = []string{"bin", "t", "lib", "_lib#x", "util"}
+var vpGCNames = []string{"bin", "t", "_t#a", "_t#b", "lib"}
 
 func vpH_C25_gc() {
 	n := vpBound("nodes")
@@ -23,7 +23,7 @@ func vpH_C25_gc() {
 	for i := range adj {
 		adj[i] = make([]bool, n)
 		for j := i + 1; j < n; j++ {
-			if vpNondetBool("edge") {
+			if vpGCEdgeAllowed(i, j) && vpNondetBool("edge") {
 				adj[i][j] = true
 				ts[i].AddDependency(ts[j].Label)
 			}
@@ -35,8 +35,8 @@ func vpH_C25_gc() {
 		ts[1].Test = &core.TestFields{}
 		ts[1].IsBinary = true
 	}
-	if n > 2 {
-		ts[2].TestOnly = vpNondetBool("lib-testonly")
+	if n > 4 {
+		ts[4].TestOnly = vpNondetBool("lib-testonly")
 	}
 	keepLabel := false
 	if n > 4 && vpNondetBool("util-keep-label") {
@@ -45,14 +45,18 @@ func vpH_C25_gc() {
 	}
 	named := -1
 	if vpNondetBool("name-a-target") {
-		named = vpChoice("named", n)
+		named = []int{1, n - 1}[vpChoice("named", 2)]
 	}
 	// sources: two files shared in every possible way
 	srcOf := make([][]string, n)
-	for i := 0; i < n; i++ {
-		for _, f := range []string{"f1.go", "f2.go"} {
+	for i := 0; i < n; i += 2 { // bin, _t#a, lib carry sources
+		for _, f := range []string{"f1.go"} {
 			if vpNondetBool("src") {
-				ts[i].AddSource(core.FileLabel{File: f, Package: "p"})
+				if vpNondetBool("named") {
+					ts[i].AddNamedSource("g", core.FileLabel{File: f, Package: "p"})
+				} else {
+					ts[i].AddSource(core.FileLabel{File: f, Package: "p"})
+				}
 				srcOf[i] = append(srcOf[i], "p/"+f)
 			}
 		}
@@ -85,8 +89,25 @@ func vpH_C25_gc() {
 	}
 	// a test of a kept (non test_only) target is kept, with everything it needs
 	if n > 1 {
-		for j := 0; j < n; j++ {
-			if adj[1][j] && keep[j] && !ts[j].TestOnly && !ts[j].Label.HasParent() {
+		// public dependencies of the test: through its own hidden sub-targets (any depth)
+		var pub func(i int, seen []bool) []int
+		pub = func(i int, seen []bool) []int {
+			var out []int
+			for j := 0; j < n; j++ {
+				if !adj[i][j] || seen[j] {
+					continue
+				}
+				if ts[j].Label.Parent() == ts[1].Label.Parent() && ts[j].Label.HasParent() {
+					seen[j] = true
+					out = append(out, pub(j, seen)...)
+				} else {
+					out = append(out, j)
+				}
+			}
+			return out
+		}
+		for _, j := range pub(1, make([]bool, n)) {
+			if keep[j] && !ts[j].TestOnly {
 				add(1)
 			}
 		}
@@ -109,4 +130,14 @@ func vpH_C25_gc() {
 			}
 		}
 	}
+}
+
+// edges that matter for the roots/closure/test rules: the test's chain through its
+// hidden sub-targets down to lib, a short cut from the test, and the binary's deps
+func vpGCEdgeAllowed(i, j int) bool {
+	switch [2]int{i, j} {
+	case [2]int{1, 2}, [2]int{2, 3}, [2]int{3, 4}, [2]int{1, 4}, [2]int{0, 4}, [2]int{0, 3}, [2]int{0, 1}:
+		return true
+	}
+	return false
 }
